@@ -136,8 +136,8 @@ def main(argv=None):
         for res in pool.map(lambda v: run_variant(prop, '/repo', v), variants):
             print('{0:22s} {1} {2}'.format(res['status'], res['name'],
                                             res.get('why', '') or res.get('fired', '')))
-            if res['status'] == 'unexpected':
-                bad += 1
+            if res['status'] in ('unexpected', 'skipped'):
+                bad += 1        # a variant whose edit no longer applies tests nothing
                 print('    ', '\n     '.join(res.get('output_tail', [])))
     print('{0} variants, {1} unexpected'.format(len(variants), bad))
     return 1 if bad else 0
